@@ -561,6 +561,20 @@ def install_arrays(it):
         fa, fb = list(a.flat()), list(b.flat())
         shape = tuple(a.shape) + tuple(b.shape)
         return NDArr(_rebuild([x * y for x in fa for y in fb], shape), shape)
+    def take(a, indices, axis=None, **k):
+        """np.take with a scalar index: the slice along `axis` (a copy in NumPy; read-only uses cannot tell)"""
+        a = as_arr(a)
+        if isinstance(indices, (list, tuple, NDArr)):
+            raise NotImplementedError("np.take with an index array")
+        if axis is None:
+            return a.flat()[indices]
+        nd = len(a.shape)
+        if axis < 0:
+            axis += nd
+        if not 0 <= axis < nd:
+            raise ValueError(f"axis {axis} is out of bounds for array of dimension {nd}")
+        return a[tuple([slice(None)] * axis + [indices])]
+    it.overrides["np.take"] = _PyCall(take)
     it.overrides["np.meshgrid"] = _PyCall(meshgrid)
     it.overrides["np.stack"] = _PyCall(stack)
     it.overrides["np.column_stack"] = _PyCall(lambda arrs, **k: stack(arrs, axis=1))
